@@ -192,6 +192,9 @@ def run_fifo(cfg, stim, backend="fast", clause_prefix="C13", trace=None, max_cyc
         pump_code = dut.fifo.fsm.encoding.get("PUMP_PRECONVERTER")
     pumped = False
     early_bypass = False
+    nonempty_exit = False
+    snap_in = snap_out = 0
+    dram_in = dram_out = 0      # port words handed to / taken from the DRAM FIFO (handshakes observed at its two streams)
     dram_code = bypass_code = None
     pcs_valid = None
     pcs_prev = 0
@@ -228,11 +231,24 @@ def run_fifo(cfg, stim, backend="fast", clause_prefix="C13", trace=None, max_cyc
                     fsm_changes += 1
                 if fsm_prev == dram_code and s == bypass_code and pcs_prev:
                     early_bypass = True  # left DRAM mode while a complete DRAM word waited at the pre-converter's output (key suffix only)
+                if s == dram_code:
+                    dram_in = dram_out = 0
+                if fsm_prev == dram_code and snap_in != snap_out:
+                    # left DRAM mode while port words were still stored in the DRAM path (counted here from the handshakes, independently of the
+                    # design's own counter): NOT the situation of the two listed findings, which are about the partial word at the pre-converter
+                    nonempty_exit = True
                 fsm_prev = s
                 fsm_seen.add(s)
                 if s == pump_code:
                     pumped = True       # classification of findings only (key suffix), never a verdict
             pcs_prev = sim.get(pcs_valid)
+            dfi_, dfo_ = dut.fifo.dram_fifo.sink, dut.fifo.dram_fifo.source
+            snap_in, snap_out = dram_in, dram_out      # = what the design's own counter can know in this cycle (handshakes of earlier cycles)
+            if s == dram_code:      # counted in DRAM mode only (the partial-word flush states reuse these streams)
+                if sim.get(dfi_.valid) and sim.get(dfi_.ready):
+                    dram_in += 1
+                if sim.get(dfo_.valid) and sim.get(dfo_.ready):
+                    dram_out += 1
         if trace is not None:
             trace.append([sim.get(x) for x in trace_signals(dut)])
         w = slave.cycle(sim, t)
@@ -302,7 +318,7 @@ def run_fifo(cfg, stim, backend="fast", clause_prefix="C13", trace=None, max_cyc
         if fs:
             # what the mode FSM did before the first failure; these signatures only qualify the key
             for f in fs:
-                f["key"] += sig_suffix(early_bypass, pumped)
+                f["key"] += sig_suffix(early_bypass, pumped, nonempty_exit)
             break
         sim.step(w)
         t += 1
@@ -314,7 +330,7 @@ def run_fifo(cfg, stim, backend="fast", clause_prefix="C13", trace=None, max_cyc
         else:
             quiet = 0
     if not fs and not done:
-        fs.append(dict(clause=P + ".hang", key=tag + sig_suffix(early_bypass, pumped), what="after %d cycles (both sides permanently willing since cycle %d): %d/%d words accepted from the producer, %d/%d delivered to the consumer; level=%d, %d memory locations hold unread words, slave idle=%s%s" % (
+        fs.append(dict(clause=P + ".hang", key=tag + sig_suffix(early_bypass, pumped, nonempty_exit), what="after %d cycles (both sides permanently willing since cycle %d): %d/%d words accepted from the producer, %d/%d delivered to the consumer; level=%d, %d memory locations hold unread words, slave idle=%s%s" % (
             t, max(stim["prod"].get("horizon", 0), stim["cons"].get("horizon", 0)), prod.i, n, len(cons.got), n, sim.get(level_sig), len(occ), slave.idle(),
             (", fsm state %s" % state_name(dut, sim.get(fsm_sig))) if fsm_sig is not None else "")))
     r = FifoRun()
@@ -327,9 +343,13 @@ def run_fifo(cfg, stim, backend="fast", clause_prefix="C13", trace=None, max_cyc
     return r
 
 
-def sig_suffix(early_bypass, pumped):
+def sig_suffix(early_bypass, pumped, nonempty_exit=False):
     """/early_bypass: the FSM went from DRAM to BYPASS in a cycle after which a complete DRAM word still waited at the
-    pre-converter's output; /pump: the FSM entered its partial-word flush (PUMP_PRECONVERTER)."""
+    pre-converter's output; /pump: the FSM entered its partial-word flush (PUMP_PRECONVERTER).
+    /nonempty_exit: the FSM left DRAM mode while port words were still stored behind it (own handshake count): a different
+    defect from the two listed ones, so their signatures are not attached."""
+    if nonempty_exit:
+        return "/nonempty_exit"
     return ("/early_bypass" if early_bypass else "") + ("/pump" if pumped else "")
 
 
